@@ -219,10 +219,12 @@ def mobytes(b):
     return "None" if b is None else f"(Some {vlib.zlist(b)})"
 
 
-PRELUDE = """From Coq Require Import ZArith List Bool.
+PRELUDE = """From Coq Require Import ZArith List Bool QArith Qabs.
 Require Import SPP.Gen.C05Header SPP.Model.C05_HeaderCodec SPP.Model.C05_RaDec.
 Import ListNotations.
 Open Scope Z_scope.
+Definition rad2deg : Q := RAD2DEG.
+Definition qclose (a b : Q) : bool := Qle_bool (Qabs (a - b)) (1 # 1000000000).
 Definition value_eqb (a b : value) : bool :=
   match a, b with
   | VInt x, VInt y => x =? y | VDbl x, VDbl y => bytes_eqb x y | VStr x, VStr y => bytes_eqb x y | VNone, VNone => true
@@ -247,7 +249,8 @@ Inductive case : Type :=
 | CUnRa (p : Z) (out : option Z)
 | CFrame (f out : Z)
 | CTelId (name : bytes) (id : Z) | CTelName (id : Z) (name : bytes)
-| CBeId (name : bytes) (id : Z) | CBeName (id : Z) (name : bytes).
+| CBeId (name : bytes) (id : Z) | CBeName (id : Z) (name : bytes)
+| CPoint (zen az : qangle) (za_disk az_disk zen_back az_back : Q).
 Definition ok (c : case) : bool :=
   match c with
   | CEnc h out => obytes_eqb (encode_header h) out
@@ -259,8 +262,22 @@ Definition ok (c : case) : bool :=
   | CFrame f out => frame_roundtrip f =? out
   | CTelId n i => telescope_to_id n =? i | CTelName i n => bytes_eqb (telescope_of_id i) n
   | CBeId n i => backend_to_id n =? i | CBeName i n => bytes_eqb (backend_of_id i) n
+  | CPoint zen az zd ad zb ab =>
+      qclose (za_start_written rad2deg zen az) zd && qclose (az_start_written rad2deg zen az) ad
+      && qclose (fst (pointing_roundtrip rad2deg zen az)) zb && qclose (snd (pointing_roundtrip rad2deg zen az)) ab
   end.
 """
+
+
+def qlit(x):
+    """exact rational literal of a float / Fraction"""
+    from fractions import Fraction
+    f = Fraction(x)
+    return f"(({f.numerator}) # {f.denominator})"
+
+
+PRELUDE = PRELUDE.replace("RAD2DEG", qlit(180.0 / math.pi))
+UNITS = {"deg": "UDeg", "arcmin": "UArcmin", "arcsec": "UArcsec", "hourangle": "UHour", "rad": "URad"}
 
 
 def run_cases(R, name, cases, descr):
@@ -303,7 +320,8 @@ def run(R: vlib.Run):
               "always present), values: extreme and random uint32, signed bytes, finite doubles from random bit patterns, ASCII and "
               "multi-byte UTF-8 strings of length 0..300, followed by 0..200 data bytes; (B) Header objects over all telescope and "
               "backend ids, the three frames, a sexagesimal grid of positions (both signs x degrees {0,1,45,89} x minutes {0,30,59} x "
-              "seconds {0, 0.01, 30, 59.99, 59.99995, 59.999999996, 1e-5, 1.5e-5}) plus random positions, extreme channel/time values; (C) valid "
+              "seconds {0, 0.01, 30, 59.99, 59.99995, 59.999999996, 1e-5, 1.5e-5}) plus random positions (SkyCoord built in degrees or radians), azimuth/zenith "
+              "Angles held in deg, rad, hourangle, arcmin, arcsec (all unit pairs), extreme channel/time values; (C) valid "
               "and invalid (key, value) edits of files from (A).  A case is non-trivial when the header has at least three keys; "
               "distinct = distinct (kind, header bytes / field tuple / edit) triples")
     R.trusted += ["Coq 8.16.1 kernel + vm_compute (finite checks on the regenerated tables; witnesses; correspondence)",
@@ -469,8 +487,12 @@ def run(R: vlib.Run):
         if q.frame != h.frame:
             fail("frame-pulsarcentric" if h.frame == "pulsarcentric" else "frame", "reference frame not preserved", {**case, "got": q.frame})
         for name in ("azimuth", "zenith"):
-            if abs(getattr(q, name).deg - getattr(h, name).deg) > 1e-9:
-                fail("field-" + name, f"{name} not preserved", {**case, "got": getattr(q, name).deg})
+            want = getattr(h, name).to_value(u.deg)
+            if not abs(getattr(q, name).to_value(u.deg) - want) <= 1e-9 * max(1.0, abs(want)):
+                unit = str(getattr(h, name).unit)
+                fail("field-" + name if unit == "deg" else "pointing-angle-units",
+                     f"{name} not preserved (Header held it in {unit})",
+                     {**case, name + "_unit": unit, name + "_value": float(getattr(h, name).value), "want_deg": want, "got_deg": getattr(q, name).to_value(u.deg)})
         sep = h.coord.separation(q.coord).arcsec
         if not sep <= 0.01:
             neg, d, m, s = sexa_of(h.dec)
@@ -560,6 +582,26 @@ def run(R: vlib.Run):
         tiny = 0 < sp["src_raj"] < 1e-4 and "." not in repr(sp["src_raj"]).split("e")[0]
         roundtrip(h, {"raise_key": "radec-exponent"} if tiny else {})
         radec_corr(h)
+    # B4: pointing angles held in every angular unit (the SIGPROC keys are degrees whatever the Header's Angle uses)
+    pvals = {"deg": [0.0, 33.25, 211.5, 359.875], "rad": [0.0, 0.4, 2.5, 6.25], "hourangle": [0.0, 2.0, 7.5, 23.5],
+             "arcmin": [0.0, 900.0, 6000.0, 21599.5], "arcsec": [0.0, 3600.0, 123456.75, 1295999.0]}
+    pcases = [(uz, vz, ua, va) for uz in pvals for ua in pvals for vz, va in [(pvals[uz][1], pvals[ua][2]), (pvals[uz][3], pvals[ua][0])]]
+    if quick:
+        pcases = [c for c in pcases if c[0] == c[2] or c[0] == "deg" or c[2] == "deg"] + rng.sample(pcases, 6)
+    for uz, vz, ua, va in pcases:
+        # zenith angles beyond 90 deg are unphysical but legal for the field; keep them inside [0, 90] when the unit allows
+        if u.Quantity(vz, uz).to_value(u.deg) > 90:
+            vz = float(u.Quantity(45.0, u.deg).to_value(uz)) if uz != "deg" else 45.0
+            vz = round(vz * 8) / 8
+        h = mk(azimuth=Angle(va, unit=ua), zenith=Angle(vz, unit=uz))
+        R.case(("Bu", uz, vz, ua, va), nontrivial=True, regime="pointing_units_deg" if (uz == ua == "deg") else "pointing_units_other",
+               sample={"kind": "B", "zenith": f"{vz} {uz}", "azimuth": f"{va} {ua}"} if (uz, ua) == ("rad", "hourangle") else None)
+        q = roundtrip(h, {})
+        if q is not None:
+            raw = sigproc.parse_header(path)
+            corr.append((f"CPoint ({qlit(vz)}, {UNITS[uz]}) ({qlit(va)}, {UNITS[ua]}) {qlit(float(raw['za_start']))} {qlit(float(raw['az_start']))} "
+                         f"{qlit(float(q.zenith.to_value(u.deg)))} {qlit(float(q.azimuth.to_value(u.deg)))}",
+                         {"kind": "pointing", "zenith": f"{vz} {uz}", "azimuth": f"{va} {ua}"}))
     # B3: random headers
     for i in range(60 if quick else 4000):
         dec = rng.choice([rng.uniform(-90, 90), rng.uniform(-1, 0), rng.uniform(-1, 1), round(rng.uniform(-90, 90), 2)])
@@ -574,7 +616,8 @@ def run(R: vlib.Run):
         h = mk(nchans=rng.choice([1, 2, 1024, 65536, rng.randrange(1, 65537)]), foff=phys(), fch1=phys(),
                nbits=rng.choice([1, 2, 4, 8, 16, 32]), tsamp=10 ** rng.uniform(-9, 1), tstart=rng.choice([0.0, 40000 + rng.random() * 30000, 60000.0]),
                nifs=rng.choice([1, 2, 4]),
-               coord=SkyCoord(ra, dec, unit="deg"), azimuth=Angle(rng.uniform(0, 360), unit=u.deg), zenith=Angle(rng.uniform(0, 90), unit=u.deg),
+               coord=SkyCoord(ra, dec, unit="deg") if i % 4 else SkyCoord(math.radians(ra), math.radians(dec), unit="rad"),
+               azimuth=Angle(rng.uniform(0, 360), unit=u.deg).to(rng.choice(list(UNITS))), zenith=Angle(rng.uniform(0, 90), unit=u.deg).to(rng.choice(list(UNITS))),
                telescope=rng.choice(list(TELESCOPES)), backend=rng.choice(list(MACHINES)), source=g.nonascii_str() if nonascii else g.ascii_str(),
                frame=rng.choice(FRAMES), ibeam=g.uint(), nbeams=g.uint(), dm=phys(), rawdatafile=g.ascii_str())
         R.case(("Br", i, h.ra, h.dec, h.source), nontrivial=True, regime="random_nonascii" if nonascii else "random_header")
@@ -663,22 +706,25 @@ def run(R: vlib.Run):
     # ---------------------------------------------------------------------------------------------------------
     # modes of the current source, as the generator read them
     # ---------------------------------------------------------------------------------------------------------
-    rc, out = vlib.coq_run("c05_modes", PRELUDE + "Eval vm_compute in (keylen_chars, vallen_chars, dec_sign_numeric, ra_sec_repr, dec_sec_repr, frames_ok).\n")
+    rc, out = vlib.coq_run("c05_modes", PRELUDE + "Eval vm_compute in (keylen_chars, vallen_chars, dec_sign_numeric, ra_sec_repr, dec_sec_repr, frames_ok, pointing_ok).\n")
     vals = vlib.parse_eval(out)
     modes = None
     if rc == 0 and vals:
         bl = re.findall(r"true|false", vals[0])
-        if len(bl) == 6:
-            modes = dict(zip(["keylen_chars", "vallen_chars", "dec_sign_numeric", "ra_sec_repr", "dec_sec_repr", "frames_ok"], [b == "true" for b in bl]))
+        if len(bl) == 7:
+            modes = dict(zip(["keylen_chars", "vallen_chars", "dec_sign_numeric", "ra_sec_repr", "dec_sec_repr", "frames_ok", "pointing_ok"], [b == "true" for b in bl]))
     if modes is None:
         R.red.append("correspondence: could not evaluate the modes of Gen/C05Header.v: " + out[-300:])
     else:
         R.extra_cov["source_modes"] = modes
-        full = not modes["vallen_chars"] and not modes["dec_sign_numeric"] and not modes["ra_sec_repr"] and not modes["dec_sec_repr"] and modes["frames_ok"]
+        full = not modes["vallen_chars"] and not modes["dec_sign_numeric"] and not modes["ra_sec_repr"] and not modes["dec_sec_repr"] \
+            and modes["frames_ok"] and modes["pointing_ok"]
         R.notes.append("theorems of Props/C05.v reduce to their " + ("FULL-STRENGTH branches for this tree" if full else
-                       "partial + refuted branches for this tree: " + ", ".join(k for k, v in modes.items() if v != (k == "frames_ok") and k != "keylen_chars")))
+                       "partial + refuted branches for this tree: " + ", ".join(k for k, v in modes.items() if v != (k in ("frames_ok", "pointing_ok")) and k != "keylen_chars")))
         predicted = {"string-nonascii": modes["vallen_chars"], "dec-sign-lost": modes["dec_sign_numeric"],
                      "radec-exponent": modes["ra_sec_repr"] or modes["dec_sec_repr"], "frame-pulsarcentric": not modes["frames_ok"]}
+        if not modes["pointing_ok"] and not ({"pointing-angle-units", "field-azimuth", "field-zenith"} & seen_fail):
+            R.red.append("the model of the current source predicts a pointing-angle defect but the oracle did not reproduce it")
         for key, pred in predicted.items():
             if pred and key not in seen_fail:
                 R.red.append(f"the model of the current source predicts the defect '{key}' but the oracle did not reproduce it")
